@@ -140,7 +140,8 @@ class Machine:
 
     def _observe(self, out, gets):
         gc.collect()
-        reg = sorted(((k, self.tok(v)) for k, v in list(NODE_REGISTRY.items())), key=lambda e: e[0])
+        # a registered node this history never created (kept alive by somebody else) is reported as token -1
+        reg = sorted(((k, self.tok_by_id.get(id(v), -1)) for k, v in list(NODE_REGISTRY.items())), key=lambda e: e[0])
         live = sorted(t for t, r in self.refs.items() if r() is not None)
         # the property itself on the real objects: a live node that has not itself been detached /
         # replaced away is returned (the identical object) by lookup under its id
@@ -158,7 +159,7 @@ class Machine:
         gres = []
         for cname, k, strict in gets:
             r = zoo._BY_NAME[cname].get(k, strict=strict) if cname != "ASTNode" else ASTNode.get(k, strict=strict)
-            gres.append(None if r is None else self.tok(r))
+            gres.append(None if r is None else self.tok_by_id.get(id(r), -1))
             del r
         return [out, [A("reg")] + [[k, t] for k, t in reg], [A("live")] + live, [A("gets")] + gres]
 
@@ -224,10 +225,10 @@ class Machine:
         elif k < 0.9:
             cs = [r.choice(live) for _ in range(r.randint(0, 3))]
             n, d, kids = zoo.Tup(tuple(cs)), "Tup", cs
-        elif k < (0.92 if self.profile == "copy" else 0.95):
+        elif k < 0.92:
             c = r.choice(live) if r.random() < 0.7 else None
             n, d, kids = zoo.Opt(c), "Opt", ([c] if c is not None else [])
-        elif k < (0.99 if self.profile == "copy" else 0.975):
+        elif k < 0.99:
             cls = r.choice([zoo.MLeft, zoo.MBoth, zoo.MBoth])
             a = r.choice(live) if r.random() < 0.8 else None
             b = r.choice(live) if r.random() < 0.8 else None
@@ -506,29 +507,34 @@ class Machine:
         v = self.rng.choice(sorted(self.vars))
         x = self.vars[v]
         t = self.tok(x)
-        k = self.rng.randrange(5)
-        if k == 0:
-            tr = x.to_tree()
-            for n in [x] + [c for c, *_ in zoo.positions(x)][:5]:
-                tr.get_parent_info(n)
-            del tr
-            what = "to_tree"
-        elif k == 1:
-            xp = ASTXpath(self.rng.choice(["//Leaf", "//Expr", "/Tup//Leaf"]))
-            found = list(xp.findall(x))
-            for n in found[:3]:
-                xp.match(x, n)
-            del found
-            what = "xpath"
-        elif k == 2:
-            list(x.dfs()); list(x.bfs()); list(x.gather(zoo.Leaf)); x.children
-            what = "traverse"
-        elif k == 3:
-            x.as_dict(); x.to_json(); hash(x); (x == x); x.__rich__()
-            what = "serialize"
-        else:
-            x.is_equal(x); x.to_properties_dict(); list(x.get_properties())
-            what = "accessors"
+        what = "?"
+        try:
+            k = self.rng.randrange(5)
+            if k == 0:
+                tr = x.to_tree()
+                for n in [x] + [c for c, *_ in zoo.positions(x)][:5]:
+                    tr.get_parent_info(n)
+                del tr
+                what = "to_tree"
+            elif k == 1:
+                xp = ASTXpath(self.rng.choice(["//Leaf", "//Expr", "/Tup//Leaf"]))
+                found = list(xp.findall(x))
+                for n in found[:3]:
+                    xp.match(x, n)
+                del found
+                what = "xpath"
+            elif k == 2:
+                list(x.dfs()); list(x.bfs()); list(x.gather(zoo.Leaf)); x.children
+                what = "traverse"
+            elif k == 3:
+                x.as_dict(); x.to_json(); hash(x); (x == x); x.__rich__()
+                what = "serialize"
+            else:
+                x.is_equal(x); x.to_properties_dict(); list(x.get_properties())
+                what = "accessors"
+        except Exception as e:  # noqa  a read-only library call on a well-formed live tree must not raise
+            if self.frame_fail is None:
+                self.frame_fail = f"read-only library call raised {type(e).__name__} on a live tree"
         del x
         return ([A("alias"), v, t], [A("ok"), t, None], f"read-only {what} on #{t}")
 
